@@ -12,8 +12,9 @@ import time
 VERIF = os.path.dirname(os.path.dirname(os.path.abspath(__file__)))
 REPO = os.environ.get("VERIF_REPO", "/repo")
 SPEC = os.path.join(VERIF, "spec")
-EVIDENCE = os.path.join(VERIF, "evidence")
-REPLAYS = os.path.join(VERIF, "replays")
+# VERIF_OUT redirects what a run writes (seed testing against a scratch tree)
+EVIDENCE = os.path.join(os.environ.get("VERIF_OUT", VERIF), "evidence")
+REPLAYS = os.path.join(os.environ.get("VERIF_OUT", VERIF), "replays")
 KNOWN_FILE = os.path.join(VERIF, "KNOWN_FINDINGS.txt")
 VENV_PY = "/venv/bin/python"
 NCPU = os.cpu_count() or 4
